@@ -133,7 +133,7 @@ def build(x):
         proof {
             let ii = __i as int - 1;
             assert forall|i: int| 0 <= i < ii implies coords@[i] != coord by { }
-            assert forall|h: HostId| (if used_ports@.contains_key(h) { used_ports@[h] as int } else { 0 }) == rank(coords@, h, __i as int) by {
+            assert forall|h: HostId| (if used_ports@.contains_key(h) { used_ports@[h] as int } else { 0 }) == rank(coords@, h, __i as int) by {   // #obl:ports.offset_counts_the_coordinates_of_the_host
                 assert((if up0.contains_key(h) { up0[h] as int } else { 0 }) == rank(coords@, h, ii));
             }
         }''')
